@@ -8,10 +8,13 @@ props = [json.loads(l) for l in open(os.path.join(ROOT, "properties.jsonl"))]
 na_reasons = json.load(open(os.path.join(ROOT, "tools", "not_applicable.json")))
 checks, engines, na = [], {}, []
 mods = {}
+claimed = set(json.load(open(os.path.join(ROOT, "tools", "claimed.json"))))
 for p in sorted(glob.glob(os.path.join(ROOT, "props", "c*.py"))):
+    pid = os.path.basename(p)[:3].upper()
+    if pid not in claimed:
+        continue
     m = importlib.import_module("props." + os.path.basename(p)[:-3])
-    if getattr(m, "CLAIMED", True):
-        mods[m.ID] = m
+    mods[m.ID] = m
 for pr in props:
     pid = pr["id"]
     m = mods.get(pid)
